@@ -329,11 +329,18 @@ MSummary msummary(const Manifold& m) {
 }
 std::string msummary_diff(const MSummary& a, const MSummary& b) {
   if (a.status != b.status) return "status";
-  if (a.empty != b.empty) return "emptiness";
+  // IsEmpty() is not compared: X - (Y + X) is the empty solid, and whether zero-thickness sheets of
+  // coincident faces are left over depends on the tree shape the evaluator chose (not general position).
   if (!std::isfinite(a.volume) || !std::isfinite(b.volume)) return (std::isfinite(a.volume) != std::isfinite(b.volume)) ? "volume_finiteness" : "";
   const double scale = std::abs(a.volume) + std::abs(b.volume) + 1e-3 * std::pow(std::max(a.area, b.area), 1.5) + 1e-9;
   if (std::abs(a.volume - b.volume) > 1e-3 * scale) return "volume";
   return "";
+}
+
+std::string hexd(double v) {
+  char b[40];
+  snprintf(b, sizeof b, "%.9g", v);
+  return b;
 }
 
 struct DeferPass {
@@ -382,6 +389,13 @@ DeferPass defer_pass(const std::vector<Op>& ops, bool observeAtBirth) {
       r.src = e.xi(op.name == "xassign" ? op.arg(1) : op.arg(0));
       r.dst = op.name == "xassign" ? e.xi(op.arg(0)) : e.X.size();
       isRel = true;
+    }
+    if (isRel && op.name == "xassign") {
+      // the slot no longer holds the SetTolerance result
+      std::vector<size_t> keepIdx;
+      for (size_t k : xsettolIdx)
+        if (k != r.dst) keepIdx.push_back(k);
+      xsettolIdx = keepIdx;
     }
     if (isRel && (op.name == "assign" || op.name == "xassign")) {
       // the slot is overwritten: relations through it end here
@@ -481,7 +495,7 @@ std::string job_c05defer(const Args& a) {
       for (size_t i = 0; i < A.xsettolTol.size(); i++) {
         const double x = A.xsettolTol[i], y = B.xsettolTol[i];
         if (std::abs(x - y) > 1e-6 * (std::abs(x) + std::abs(y)))
-          viol.raw(JObj().str("prop", "C05").i64("step", -1).str("op", "xsettol").str("clause", "lazy_state_observable:SetTolerance_result_tolerance").done());
+          viol.raw(JObj().str("prop", "C05").i64("step", -1).str("op", "xsettol").str("clause", "lazy_state_observable:SetTolerance_result_tolerance").str("detail", "result " + std::to_string(i) + ": observed history " + hexd(x) + ", unobserved " + hexd(y)).done());
       }
   });
   if (out.exception) viol.raw(JObj().str("prop", "C09").i64("step", -1).str("op", "").str("clause", "exception:" + out.what).done());
